@@ -118,6 +118,9 @@ def run_shard(desc, ctx):
         n = [1024, 1025, 2 ** 14, 2 ** 14 + 1][desc['shard'] - 3]
         run_case({'samples': np.cumsum(rl.choice([0, 1, 1, 2, 3, 30], size=n)).tolist(), 'labels': rl.integers(0, 3, size=n).tolist(), 'k': 3,
                   'bin': 2, 'half': 4, 'rate': 2.0, 'perm': [1, 2, 0], 'unused_pos': 0, 'windowed': True, 'bigids': bool(desc['shard'] % 2)}, ctx)
+    # thousands of spikes on a few consecutive samples: every spike has thousands of partners inside its window
+    if desc['shard'] in (8, 13):
+        run_case({'kind': 'dense_block', 'per_sample': [3000, 4500][desc['shard'] == 13], 'n0': [1800, 100][desc['shard'] == 13]}, ctx)
     # random long trains
     rng = np.random.default_rng([desc['seed'], desc['shard'], 15])
     for r in range(desc['nrand'] // desc['n'] + 1):
@@ -218,6 +221,39 @@ def _call_history(case, ctx):
             held.append((step, r.value, e))
 
 
+def _dense_block(case, ctx):
+    from phylib.stats.ccg import correlograms
+    m, n0 = case['per_sample'], case['n0']
+    # samples 0, 1, 2 carry m spikes each: the first n0 of cluster 7, the others of cluster 3; a sparse tail follows
+    samples = np.r_[np.repeat([0, 1, 2], m), [10, 50, 90]].astype(np.int64)
+    labels = np.r_[np.tile(np.r_[np.zeros(n0, int), np.ones(m - n0, int)], 3), [0, 1, 0]]
+    cnt = np.zeros((100, 2), dtype=np.int64)
+    np.add.at(cnt, (samples, labels), 1)
+    half = 2
+    exp = np.zeros((2, 2, half + 1), dtype=np.int64)
+    for s1 in range(100):
+        for l1 in range(2):
+            if not cnt[s1, l1]:
+                continue
+            # same sample: pairs in train order (cluster 7 block before cluster 3 block)
+            exp[l1, l1, 0] += cnt[s1, l1] * (cnt[s1, l1] - 1) // 2
+            if l1 == 0:
+                exp[0, 1, 0] += cnt[s1, 0] * cnt[s1, 1]
+            for k in range(1, half + 1):
+                if s1 + k < 100:
+                    for l2 in range(2):
+                        exp[l1, l2, k] += cnt[s1, l1] * cnt[s1 + k, l2]
+    ids = np.array([7, 3])
+    ctx.count(1, key=hkey('dense_block', m, n0), nontrivial=True, cell=('dense_block',))
+    r = call(correlograms, samples.astype(np.float64), ids[labels], cluster_ids=[7, 3], sample_rate=1., bin_size=1., window_size=2. * half, symmetrize=False)
+    if not r.ok:
+        ctx.violation('raised', case, 'correlograms raised %r' % r.exc, {'dense_block': True}, tb=r.tb)
+        return
+    d = same(r.value, exp, dtype=False)
+    if d:
+        ctx.violation('one_sided_count_mismatch', case, '%d spikes on each of 3 consecutive samples: %s' % (m, d), {'dense_block': True})
+
+
 def run_case(case, ctx):
     from phylib.stats.ccg import correlograms, firing_rate
     if case.get('kind') == 'firing_rate_big':
@@ -235,6 +271,8 @@ def run_case(case, ctx):
             if d:
                 ctx.violation('firing_rate_mismatch', case, 'large counts: ' + d, {'big': True})
         return
+    if case.get('kind') == 'dense_block':
+        return _dense_block(case, ctx)
     if case.get('kind') == 'bin_multiples':
         return _bin_multiples(case, ctx)
     if case.get('kind') == 'call_history':
